@@ -2,7 +2,7 @@
     files.  Strong hash := the block itself (so two strong hashes are equal iff the blocks
     are), and the Go side reports, instead of MD5 values, for every hash the index of the first
     hash of the list with the same strong hash.  Nothing here is used by a theorem. *)
-From Wharf Require Import Base.Prelude Sig.Scan Sig.Weak Sig.Sign Sig.Fanout Sig.SigFile Sig.HashInfo.
+From Wharf Require Import Base.Prelude Val.Drip Val.VPool Sig.Scan Sig.Weak Sig.Sign Sig.Fanout Sig.SigFile Sig.HashInfo Sig.Validate.
 Local Open Scope N_scope.
 
 Definition MAXE : nat := 100.                  (* bufio maxConsecutiveEmptyReads *)
@@ -103,3 +103,67 @@ Definition mismatches_sig (cs : list sig_case) : list N :=
                           negb (list_eqb hash5_eqb hs' hs && list_eqb ogroup_eqb gs' gs)
                         | None => true
                         end) cs).
+
+(* ---- hinfo: pwr.ComputeHashInfo on ANY signature (too few, too many, exactly enough hashes) ----
+   the container is given by its file sizes, the hashes are anonymous: hash number k is
+   represented by k, a group by the numbers of its hashes.  [cls]: 0 = nil error, 1 = error
+   returned, anything else (2 = panic, 3 = hang) never matches the model: ComputeHashInfo has no
+   such outcome since repo commit 6a06397. *)
+Definition hinfo_case := (N * list N * N * (N * list (option (list N))))%type.
+
+Definition ogroup1_eqb (a b : option (list N)) : bool :=
+  match a, b with
+  | None, None => true
+  | Some x, Some y => nlist_eqb x y
+  | _, _ => false
+  end.
+
+Definition run_hinfo (sizes : list N) (nhashes : N) : N * list (option (list N)) :=
+  match compute_hash_info BSn sizes (map N.of_nat (seq 0 (N.to_nat nhashes))) with
+  | HiOk gs => (0, gs)
+  | HiErr => (1, [])
+  end.
+
+Definition mismatches_hinfo (cs : list hinfo_case) : list N :=
+  map (fun c => let '(id, _, _, _) := c in id)
+      (filter (fun c => let '(_, sizes, nh, (cls, gs)) := c in
+                        let '(cls', gs') := run_hinfo sizes nh in
+                        negb ((cls' =? cls) && list_eqb ogroup1_eqb gs' gs)) cs).
+
+(* ---- vfile: Validate of a tree of regular files against the signature of OTHER contents ----
+   (files on disk shorter / longer than signed, damaged blocks, pristine): per file the signed
+   content and the content on disk, and the wounds found in the wounds file, sorted.  The model:
+   the signature of the signed contents, ComputeHashInfo, [doOne] per file with the content
+   written in one Write (the slicing does not matter: Val/VPoolProofs.v [wound_mode_list]),
+   WoundsWriter's filter, sorted the same way (the relay goroutines interleave). *)
+Definition vfile_case := (N * list (list (N * N) * list (N * N)) * (N * list wound))%type.
+
+Definition wkind_rank (k : wkind) : Z := match k with WFile => 0 | WSymlink => 1 | WDir => 2 | WClosed => 3 end%Z.
+Definition wound_leb4 (a b : wound) : bool :=
+  let ka := wkind_rank (wk a) in let kb := wkind_rank (wk b) in
+  (if ka <? kb then true else if kb <? ka then false else
+   if widx a <? widx b then true else if widx b <? widx a then false else
+   if wstart a <? wstart b then true else if wstart b <? wstart a then false else
+   wend a <=? wend b)%Z.
+Fixpoint insert_w4 (w : wound) (l : list wound) : list wound :=
+  match l with
+  | [] => [w]
+  | x :: r => if wound_leb4 w x then w :: l else x :: insert_w4 w r
+  end.
+Definition sort_w4 (l : list wound) : list wound := fold_right insert_w4 [] l.
+
+Definition MAXWOUND : Z := 4194304.            (* pwr.MaxWoundSize *)
+
+Definition run_vfile (signed ondisk : list (list N)) : N * list wound :=
+  let sizes := map (fun f => N.of_nat (length f)) signed in
+  let sig := read_signature BSn sizes (write_signature (sign_all BSn beta_prefix (fun b : list N => b) signed)) in
+  match validate_tree BSn beta_prefix (fun b : list N => b) nlist_eqb MAXWOUND sizes sig (map (fun c => [c]) ondisk) with
+  | Some wl => (0, sort_w4 (wounds_written wl))
+  | None => (1, [])
+  end.
+
+Definition mismatches_vfile (cs : list vfile_case) : list N :=
+  map (fun c => let '(id, _, _) := c in id)
+      (filter (fun c => let '(_, files, (cls, ws)) := c in
+                        let '(cls', ws') := run_vfile (map (fun p => expand (fst p)) files) (map (fun p => expand (snd p)) files) in
+                        negb ((cls' =? cls) && list_eqb wound_eqb ws' ws)) cs).
